@@ -988,7 +988,7 @@ def replay_static(d, pid, v):
         return _native_test(d, STATIC_TEST_LATE, "verif_timeout_closes_after_deadline", "VIOLATION market still open")
     if pid == "C12" and "an unexpired timeout leaves the market untouched" in v["obligation"]:
         return _native_test(d, STATIC_TEST_UNTOUCHED, "verif_unexpired_timeout_leaves_market_untouched", "VIOLATION market altered")
-    if "on a closed market the round" in v["obligation"]:
+    if "on a closed market the round" in v["obligation"] or "observes a closed market" in v["obligation"]:
         w = v.get("witness") or {}
         threads, width = int(w.get("threads", 1)), max([1] + [int(x) for x in w.get("queue_after_block", [])])
         if not (1 <= threads <= 8 and 1 <= width <= 64):
